@@ -73,7 +73,7 @@ class Reporter:
                     seen_known.add(v["key"])
             else:
                 unknown.append(v)
-        rdir = os.path.join(VERIF, "evidence", "replay")
+        rdir = os.path.join(os.environ.get("VERIF_EVIDENCE_DIR") or os.path.join(VERIF, "evidence"), "replay")
         os.makedirs(rdir, exist_ok=True)
         for f in os.listdir(rdir):
             if f.startswith(self.pid + "-"):
@@ -119,8 +119,9 @@ class Reporter:
             "wall_s": round(time.time() - self.t0, 2),
             "violations": len(unknown),
         }
-        os.makedirs(os.path.join(VERIF, "evidence"), exist_ok=True)
-        with open(os.path.join(VERIF, "evidence", "%s.json" % self.pid), "w") as fh:
+        edir = os.environ.get("VERIF_EVIDENCE_DIR") or os.path.join(VERIF, "evidence")
+        os.makedirs(edir, exist_ok=True)
+        with open(os.path.join(edir, "%s.json" % self.pid), "w") as fh:
             json.dump(ev, fh, indent=1, sort_keys=True)
         for l in lines:
             print(l)
